@@ -1,7 +1,8 @@
+\* RELA entries ADD to their place (shared helper for REL and RELA): TLC must refute it (the places are not zero)
 \* every RELA table of <= 2 entries x every REL table of <= 1 entry over 4 words, 4 dynamic-section layouts,
 \* 3 program-header lists, 3 start-up situations
 CONSTANTS
-  Variant = "coded"
+  Variant = "rela_adds"
   Rels <- Rel1
   Relas <- Rela2
   Words <- W
